@@ -6,6 +6,8 @@
 From Coq Require Import List Arith Bool.
 From GIV.Model Require Import C18.
 From GIV.Proofs Require Import C18.
+From GIV.Model Require C18V.
+From GIV.Proofs Require C18V.
 Import ListNotations.
 
 (* For every schedule (any number of processes, any interleaving, any crash points, any history
@@ -45,3 +47,18 @@ Example C18_nonvacuous :
   let evs := witness_a ++ [Step 1; Step 1; Step 1; Step 1; Step 1; Step 1; Step 1] in
   stale (run true evs) 1 = false /\ result_of (run true evs) 1 <> None.
 Proof. exact repaired_a. Qed.
+
+(* a change of scanner version discards all entries: whatever the interleaving of version checks
+   (read .cache-version / list / unlink / write), stores, loads and kills of any number of
+   scanner processes, and any number of upgrades made while no scanner runs, a load only ever
+   returns an entry pickled by the scanner version that loads it (Model/C18V.v) *)
+Theorem C18_version_change_safe : forall evs,
+  Forall (fun pr => fst pr = snd pr) (C18V.served (C18V.vrun evs)).
+Proof. exact C18V.version_safe. Qed.
+Print Assumptions C18_version_change_safe.
+
+(* ... and the order "purge, then record the version" is what makes it true *)
+Theorem C18_version_first_refuted :
+  exists evs, In (1, 0) (C18V.served (fold_left C18V.vstep_version_first evs C18V.vinit)).
+Proof. exact C18V.version_first_refuted. Qed.
+Print Assumptions C18_version_first_refuted.
